@@ -688,6 +688,24 @@ m('skiplist-update-inserts-before-delete', ['C07', 'C17'], 'lib/storage/index/sk
 m('float-key-from-sign-bit', ['C07', 'C17'], 'lib/samehada/samehada_util/samehada_util.go', """		if f >= 0 {
 			u |= SignMaskBig""", """		if u&SignMaskBig == 0 && f == f {
 			u |= SignMaskBig""", ['C07-R8 [encodeToDicOrderComparableBytes:float-key-not-from-bits-alone'])
+m('hash-insert-keeps-old-block-page', ['C07', 'C17'], 'lib/container/hash/linear_probe_hash_table.go', """		iterator.next()
+
+		blockPage, bucket, offset = iterator.blockPage, iterator.bucket, iterator.offset""", """		iterator.next()
+
+		bucket, offset = iterator.bucket, iterator.offset""", ['C17-R7 [(*container/hash.LinearProbeHashTable).Insert:cursor-copy-fresh:field blockPage]'])
+m('update-image-before-shift', ['C15'], TP, """	copy(tp.GetData()[freeSpacePointer+tupleSize-updateTuple.Size():], tp.GetData()[freeSpacePointer:tupleOffset])
+	tp.SetFreeSpacePointer(freeSpacePointer + tupleSize - updateTuple.Size())
+	copy(tp.GetData()[tupleOffset+tupleSize-updateTuple.Size():], updateTuple.Data()[:updateTuple.Size()])
+	tp.SetTupleSize(slotNum, updateTuple.Size())
+""", """	copy(tp.GetData()[tupleOffset+tupleSize-updateTuple.Size():], updateTuple.Data()[:updateTuple.Size()])
+	tp.SetTupleSize(slotNum, updateTuple.Size())
+	copy(tp.GetData()[freeSpacePointer+tupleSize-updateTuple.Size():], tp.GetData()[freeSpacePointer:tupleOffset])
+	tp.SetFreeSpacePointer(freeSpacePointer + tupleSize - updateTuple.Size())
+""", ['C15-R8 [UpdateTuple:shift-before-image]'])
+m('update-space-check-on-value-list', ['C15'], TP, """	if tp.getFreeSpaceRemaining()+tupleSize < updateTuple.Size() {""", """	if tp.getFreeSpaceRemaining()+tupleSize < newTuple.Size() {""", ['C15-R8 [UpdateTuple:space-check-measures-written-tuple#1]'])
+m('insert-space-check-ignores-row-size', ['C15'], TP, """	if tp.getFreeSpaceRemaining() < tuple.Size()+sizeTuple {
+		return nil, ErrNotEnoughSpace""", """	if tp.getFreeSpaceRemaining() < sizeTuple {
+		return nil, ErrNotEnoughSpace""", ['C15-R8 [InsertTuple:space-check-measures-written-tuple#1]'])
 # drop the one that needs a helper that does not exist
 M = [x for x in M if x['id'] != 'insert-executor-unlocks-early']
 os.chdir(os.path.dirname(os.path.abspath(__file__)) + '/..')
